@@ -121,7 +121,70 @@ def _worker(ys):
                         e = _round_wday(d, w, forw, nxt)
                         if got != (e.year, e.month, e.day):
                             bad.setdefault("weekday", []).append((d.isoformat(), "%sweekday %d%s" % ("" if forw else "-", w, " --next" if nxt else ""), str(got), e.isoformat()))
+        # ---- dates held as week dates: ISO week targets; dates held as business-day dates: business-day targets
+        def rnd2(dd, dur, nxt, keys):
+            fo = fold.Folder(fn, calls={"serror": lambda *a: 0}, inline=True, max_steps=600000)
+            fo._tabs = tabs
+            r = fo.run([dd, dur, nxt])
+            return tuple(r.get(k) for k in keys) if isinstance(r, dict) else None
+        nwk = _isowk(y)
+        for c in sorted({1, 2, 26, 52, nwk}):
+            for w in (1, 4, 7):
+                hang = HANG[datetime.date(y, 1, 1).isoweekday()]
+                dd = {"typ": E["DT_YWD"], "ywd.y": y, "ywd.c": c, "ywd.w": w, "ywd.hang": hang}
+                for nxt in (0, 1):
+                    for forw in (True, False):
+                        for k in range(1, 54):
+                            dur = {"durtyp": E["DT_DURWK"], "dv": k if forw else -k, "neg": 0}
+                            n += 1
+                            got = rnd2(dd, dur, nxt, ("ywd.y", "ywd.c", "ywd.w", "ywd.hang"))
+                            yy = y
+                            for _ in range(4):
+                                cc = min(k, _isowk(yy))
+                                if (forw and ((yy, cc) > (y, c) or ((yy, cc) == (y, c) and not nxt))) or \
+                                        (not forw and ((yy, cc) < (y, c) or ((yy, cc) == (y, c) and not nxt))):
+                                    break
+                                yy += 1 if forw else -1
+                            exp = (yy, cc, w, HANG[datetime.date(yy, 1, 1).isoweekday()])
+                            if got != exp:
+                                bad.setdefault("ISO week", []).append(("%d-W%02d-%d" % (y, c, w), "%s%dw%s" % ("" if forw else "-", k, " --next" if nxt else ""),
+                                                                       str(got), "%d-W%02d-%d with 1 January %+d days off a Monday" % exp))
+        for m in (1, 2, 6, 12):
+            nb = _nbdays(y, m)
+            for b in sorted({1, 2, 10, 20, nb}):
+                dd = {"typ": E["DT_BIZDA"], "bizda.y": y, "bizda.m": m, "bizda.bd": b}
+                for nxt in (0, 1):
+                    for forw in (True, False):
+                        for k in range(1, 24):
+                            dur = {"durtyp": E["DT_DURBD"], "dv": k if forw else -k, "neg": 0}
+                            n += 1
+                            got = rnd2(dd, dur, nxt, ("bizda.y", "bizda.m", "bizda.bd"))
+                            yy, mm = y, m
+                            for _ in range(40):
+                                bb = min(k, _nbdays(yy, mm))
+                                if (forw and ((yy, mm, bb) > (y, m, b) or ((yy, mm, bb) == (y, m, b) and not nxt))) or \
+                                        (not forw and ((yy, mm, bb) < (y, m, b) or ((yy, mm, bb) == (y, m, b) and not nxt))):
+                                    break
+                                mm += 1 if forw else -1
+                                if mm > 12:
+                                    yy, mm = yy + 1, 1
+                                if mm < 1:
+                                    yy, mm = yy - 1, 12
+                            if got != (yy, mm, bb):
+                                bad.setdefault("business day of the month", []).append(("%d-%02d-%02db" % (y, m, b), "%s%db%s" % ("" if forw else "-", k, " --next" if nxt else ""),
+                                                                                        str(got), "%d-%02d-%02db" % (yy, mm, bb)))
     return n, bad
+
+
+HANG = {1: 0, 2: -1, 3: -2, 4: -3, 5: 3, 6: 2, 7: 1}
+
+
+def _isowk(y):
+    return datetime.date(y, 12, 28).isocalendar()[1]
+
+
+def _nbdays(y, m):
+    return sum(1 for k in range(1, _mdays(y, m) + 1) if datetime.date(y, m, k).isoweekday() <= 5)
 
 
 def run_parallel(R, P, rule, every=False, jobs=12):
@@ -131,7 +194,7 @@ def run_parallel(R, P, rule, every=False, jobs=12):
     if fn is None:
         raise AnalysisBroken("dround_ddur vanished")
     R.saw(fn)
-    E = {k: lib.enum_value(k) for k in ("DT_YMD", "DT_DURD", "DT_DURYMD", "DT_DURYMCW")}
+    E = {k: lib.enum_value(k) for k in ("DT_YMD", "DT_DURD", "DT_DURYMD", "DT_DURYMCW", "DT_YWD", "DT_BIZDA", "DT_DURWK", "DT_DURBD")}
     if None in E.values():
         raise AnalysisBroken("%s: tags not found" % rule)
     years = convdecode.class_years()
@@ -149,7 +212,7 @@ def run_parallel(R, P, rule, every=False, jobs=12):
         n += k
         for key, lst in b.items():
             bad.setdefault(key, []).extend(lst)
-    for kind in ("day of the month", "month", "weekday"):
+    for kind in ("day of the month", "month", "weekday", "ISO week", "business day of the month"):
         if kind in bad:
             lst = sorted(bad[kind])
             day, what, got, exp = lst[0]
